@@ -1,5 +1,6 @@
 import Driver.Util
 import LemoModel.TxGuard
+import LemoModel.PoolGuard
 namespace Driver.C04
 open LemoModel LemoModel.TxGuard Driver
 
@@ -7,6 +8,8 @@ structure St where
   g : Guard := newTxGuard 0
   univ : List Block := []
   fixed : Bool := true
+  /-- the combined pool × guard machine of LemoModel/PoolGuard.lean (`pg …` ops), pinned to `Cfg.live` -/
+  pg : Option PoolGuard.State := none
 
 def core? (s : String) : Option Core :=
   match s.splitOn ":" with
@@ -46,8 +49,115 @@ def showOutBool : Out Bool → String
 
 def ids (txs : List Tx) : String := joinWith "," (txs.map (fun t => toString t.txId))
 
+/-! ### `pg …`: the combined machine (real engine: DPoVP + TxPool + TxGuard) -/
+
+open PoolGuard in
+def pgReply (s : St) (res : String) (r : Option PoolGuard.State) : St × String :=
+  match r with
+  | some p => ({ s with pg := some p }, res ++ " ; " ++ p.dump)
+  | none => (s, "panic")
+
+def showAddRes : Pool.Out → String
+  | .ok => "ok"
+  | .err .errTxIsExist => "ErrTxIsExist"
+  | .err .errInvalidTx => "ErrInvalidTx"
+  | .err .ok => "ok"
+  | _ => "?"
+
+def natList? (x : String) : Option (List Nat) :=
+  if x == "-" then some [] else (x.splitOn ",").mapM String.toNat?
+
+open PoolGuard in
+def pgStep (s : St) (p : PoolGuard.State) (w : List String) : St × String :=
+  let cfg := Cfg.live
+  let env (op : Op) (k : Unit → St × String) : St × String :=
+    if envB p op then k () else (s, "ENV-VIOLATED")
+  match w with
+  | ["ask", now, tx] =>
+    match now.toNat?, tx? tx with
+    | some now, some tx =>
+      env (.ask now tx) fun _ =>
+        let res := if !(validBody cfg tx now) then "invalid" else
+          match p.g.existTxs p.head.hash [tx] with
+          | .ok false => "ok"
+          | .ok true => "exists"
+          | _ => "panic"
+        pgReply s res (step cfg p (.ask now tx))
+    | _, _ => (s, "bad-op")
+  | ["add", tx] =>
+    match tx? tx with
+    | some tx =>
+      let res := if p.asked.contains tx then showAddRes (Pool.step true p.pool (.add (some (toPool tx)))).2 else "not-asked"
+      pgReply s res (step cfg p (.add tx))
+    | none => (s, "bad-op")
+  | ["recv", now, tx] =>   -- the whole of SendTx in one go: ask, then add when the answer was `false`
+    match now.toNat?, tx? tx with
+    | some now, some tx =>
+      env (.ask now tx) fun _ =>
+        if !(validBody cfg tx now) then pgReply s "invalid" (some p) else
+        match p.g.existTxs p.head.hash [tx] with
+        | .ok true => pgReply s "exists" (some p)
+        | .ok false =>
+          match step cfg p (.ask now tx) with
+          | some p1 =>
+            pgReply s (showAddRes (Pool.step true p1.pool (.add (some (toPool tx)))).2) (step cfg p1 (.add tx))
+          | none => (s, "panic")
+        | _ => (s, "panic")
+    | _, _ => (s, "bad-op")
+  | ["pending", now, size] =>
+    match now.toNat?, parseInt? size with
+    | some now, some size =>
+      let res := match poolGet p.pool now size with
+        | some (_, l) => showIds (l.map (·.hash))
+        | none => "panic"
+      pgReply s res (step cfg p (.pending now size))
+    | _, _ => (s, "bad-op")
+  | "insert" :: id :: par :: h :: t :: stab :: nh :: txs =>
+    match id.toNat?, par.toNat?, h.toNat?, t.toNat?, parseBool? stab, nh.toNat?, txs.mapM tx? with
+    | some id, some par, some h, some t, some stab, some nh, some txs =>
+      let b : Block := ⟨id, par, h, t, txs⟩
+      match findBlock (b :: p.blocks) nh with
+      | some nhb =>
+        let verdict := match verifyTxs true p.g b with
+          | .ok true => "accept"
+          | .ok false => "reject"
+          | _ => "panic"
+        if verdict == "accept" then
+          env (.insert b stab nhb) fun _ => pgReply s verdict (step cfg p (.insert b stab nhb))
+        else pgReply s verdict (step cfg p (.insert b stab nhb))
+      | none => (s, "bad-op unknown head")
+    | _, _, _, _, _, _, _ => (s, "bad-op")
+  | ["confirm", st, nh] =>
+    match st.toNat?.bind (findBlock p.blocks), nh.toNat?.bind (findBlock p.blocks) with
+    | some st, some nh => env (.confirm st nh) fun _ => pgReply s "ok" (step cfg p (.confirm st nh))
+    | _, _ => (s, "bad-op")
+  | ["mine", hash, now, stab, invalid] =>
+    match hash.toNat?, now.toNat?, parseBool? stab, natList? invalid with
+    | some hash, some now, some stab, some invalid =>
+      env (.mine hash now [] invalid stab) fun _ =>
+        match assemble cfg p hash now [] invalid with
+        | some (_, b) =>
+          let verdict := match verifyTxs true p.g b with
+            | .ok true => "accept"
+            | .ok false => "reject"
+            | _ => "panic"
+          pgReply s s!"t={b.time} txs={showIds (b.txs.map (·.txId))} peer={verdict}" (step cfg p (.mine hash now [] invalid stab))
+        | none => (s, "panic")
+    | _, _, _, _ => (s, "bad-op")
+  | _ => (s, "bad-op")
+
 def step (s : St) (w : List String) : St × String :=
   match w with
+  | ["pg", "new", id, t] =>
+    match id.toNat?, t.toNat? with
+    | some id, some t =>
+      let gen : Block := ⟨id, 0, 0, t, []⟩
+      if PoolGuard.genOK gen then pgReply s "ok" (PoolGuard.init gen) else (s, "bad-genesis")
+    | _, _ => (s, "bad-op")
+  | "pg" :: rest =>
+    match s.pg with
+    | some p => pgStep s p rest
+    | none => (s, "bad-op no-machine")
   -- the model is PINNED to the repaired code (fix 828f704): the harness still reports what its probe of the
   -- implementation saw, and anything but `fixed` is a correspondence difference
   | ["variant", v] => (s, if v == "fixed" then "ok" else "model-is-pinned-to-fixed")
